@@ -71,6 +71,8 @@ G2 = S.cat("g", 2, "last", values=[1, 3])
 C3 = S.cat("c", 3, "first")
 M2 = S.mr("m", 2)
 rsub = [subtotal("g12", [1, 2], anchor="top", sid=1)]
+# a difference next to a plain subtotal: its smoothed row is the trailing mean of ITS unsmoothed row
+rdiff = [subtotal("g1_2", [1], [2], anchor="bottom", sid=2), subtotal("g12", [1, 2], anchor="top", sid=1)]
 
 SCHEMAS = {}
 SP = {}
@@ -94,7 +96,7 @@ _reg("vec_strand_notdate", Schema("vsn", [C3], [("cat", 0)],
      "vec1", L=3, notdate=True)
 for _L in (1, 2, 3, 4):
     _reg("e2e_cat_x_date_L%d" % _L, S.schema2("e%d" % _L, G2, date_var(_L)), "e2e", L=_L,
-         cfgs=[{}, {"rows": rsub}], weights=(1,), quick=2 if _L < 4 else 1, thorough=3 if _L < 4 else 2)
+         cfgs=[{}, {"rows": rsub}, {"rows": rdiff}], weights=(1,), quick=2 if _L < 4 else 1, thorough=3 if _L < 4 else 2)
 G3n = S.cat("g", 3, "last", values=[1, None, 3])
 _reg("e2e_cat3none_x_date_L3", S.schema2("e3n", G3n, date_var(3)), "e2e", L=3, cfgs=[{}], weights=(1,), quick=2, thorough=3)
 _reg("e2e_mr_x_date_L3", S.schema2("em3", M2, date_var(3)), "e2e", L=3, cfgs=[{}], weights=(1,), quick=1, thorough=2)
